@@ -133,7 +133,8 @@ class Model:
         if self.kind == 'dict':
             w = DictWorld(users={'alice': ('pw', ())})
         else:
-            w = MaildirWorld(layout=self.kind, users={'alice': ('pw', ())})
+            w = MaildirWorld(layout=self.kind, users={'alice': ('pw', ())},
+                             jail_cheap=True)
         ctx = Ctx(w)
         a = ctx.connect()
         p = ctx.connect()
